@@ -470,6 +470,19 @@ def c14(tier):
     if any(len(es) != 9 for es in dgroups.values()):
         raise vlib.ToolError("C14: a directed program was not compiled under all 9 settings")
     res["states"] += dres["states"]; res["generated"] += dres["generated"]; res["ok"] += dres["ok"]
+    # recorded finding: a trace ARGUMENT that aborts is only evaluated when traces are kept (fixed reproducer, not generated)
+    ksrc = ("fn boom(n: Int) -> Int {\n  if n == 0 {\n    fail\n  } else {\n    n\n  }\n}\n\n"
+            "pub fn entry(a: Int) -> Data {\n  trace @\"x\": boom(a)\n  let r: Data = 1\n  r\n}\n")
+    ko = vlib.run_harness("aiken_run", stdin_lines=[{"id": 0, "src": ksrc, "tracings": ALL_TRACINGS, "fns": [{"name": "entry", "args": [[{"d": "I", "v": 0}], [{"d": "I", "v": 3}]]}]}])[0]
+    for ai in (0, 1):
+        outs = {}
+        for r in ko["runs"]:
+            if r["check"] != "ok" or r["fns"][0]["compile"] != "ok":
+                raise vlib.ToolError("C14 reproducer module does not compile under %s" % r["tracing"])
+            outs[cj(r["tracing"])] = r["fns"][0]["results"][ai]["post"]["o"]
+        if len(set(outs.values())) > 1:
+            rep.violation("trace-args:erased" if ai == 0 else "trace-args:control", {"src": ksrc, "args": [ai], "by_tracing": outs},
+                          "a trace argument that aborts decides the outcome under some trace settings only: %s" % outs)
     full = sum(1 for es in groups.values() if len(es) == 9)
     if full < 0.7 * len(groups):
         raise vlib.ToolError("C14: only %d of %d (program, input) pairs were compiled under all 9 settings" % (full, len(groups)))
@@ -484,7 +497,7 @@ def c14(tier):
     rc = rep.finish()
     vlib.write_evidence("C14", tier, "model_checking", cov,
                         ["trace arguments are variables (directed family trace-only) or absent; an argument EXPRESSION that can itself fail is not generated: "
-                         "the compiler documents that silent / compact builds do not evaluate trace arguments"], time.time() - t0, len(rep.violations))
+                         "that is the recorded known finding trace-args:erased, re-run as a fixed reproducer"], time.time() - t0, len(rep.violations))
     return rc
 
 
